@@ -29,6 +29,13 @@ def main() -> int:
     expected = sequential(inst, none_tasks)
     _, comp_of = comp_names(pre)
     traces = []
+    if n < 0:
+        # exhaustive mode: every delivery order (capped at -n executions)
+        from .simbridge import record_all_orders
+        traces, complete = record_all_orders(inst, job, env, pre, expected, cap=-n)
+        json.dump(traces, open(out, "w"))
+        json.dump({"comp_of": comp_of, "complete": complete}, open(out + ".meta", "w"))
+        return 0
     for s in range(seed0, seed0 + n):
         # vary the amount of executor activity between controller steps and the batch size
         kw = {"max_exec_steps": (0, 1, 2, 4, 8)[s % 5], "max_batch": (1, 2, 3, 6)[(s // 5) % 4]}
